@@ -65,6 +65,10 @@ Section C11.
   Theorem C11_cube_is_cofactor vs (F : bfun) lits e : ext F -> NoDup vs -> NoDup (map fst lits) ->
     (forall v, In v (map fst lits) -> In v vs) -> restrict_spec vs F (cubef lits) e = F (override e lits).
   Proof. exact (restrict_cube vs F lits e). Qed.
+  (* restrict(f, g) depends only on variables f depends on: when the care set is determined by the listed variables and f
+     does not depend on w, neither does the result (on the specification; the diagram-level statement is in C11_restrict) *)
+  Theorem C11_support vs (F G : bfun) w : ext F -> supp_in vs G -> NoDup vs -> indep F w -> indep (restrict_spec vs F G) w.
+  Proof. exact (restrict_support vs F G w). Qed.
 End C11.
 
 Print Assumptions C11_restrict.
@@ -77,3 +81,4 @@ Print Assumptions C11_restrict_fuel_bound.
 Print Assumptions C11_true_care_set.
 Print Assumptions C11_zero_when_g_implies_not_f.
 Print Assumptions C11_cube_is_cofactor.
+Print Assumptions C11_support.
